@@ -12,6 +12,7 @@ import itertools
 from asyncio import events, futures
 
 _seq = itertools.count(1)
+_HANG = [False]
 
 
 def reset_seq() -> None:
@@ -309,6 +310,10 @@ class SimLoop(asyncio.BaseEventLoop):
             if hooks:
                 for hk in hooks:
                     hk()
+            if _HANG[0]:
+                _HANG[0] = False
+                from .world import HangDetected
+                raise HangDetected("wall-clock watchdog")
             if self.steps >= self.step_cap:
                 self.capped = "steps"
                 self._stopping = True
